@@ -85,7 +85,7 @@ pub fn run(ctx: &mut Ctx) {
     for (n, ok) in rsm4::selftest() {
         ctx.selftest(&n, ok);
     }
-    ctx.require(&["encrypt", "decrypt", "structured", "random", "history", "history_clone", "openssl_ecb", "sbox_all_bytes", "roundtrip_dec_enc", "roundtrip_enc_dec", "unaligned_slices"]);
+    ctx.require(&["encrypt", "decrypt", "structured", "random", "history", "history_clone", "openssl_ecb", "sbox_all_bytes", "roundtrip_dec_enc", "roundtrip_enc_dec", "unaligned_slices", "crafted_round_input", "crafted_round_key"]);
 
     // --- OpenSSL ECB corpus
     let c = corpus::load("sm4_openssl.json");
@@ -109,6 +109,58 @@ pub fn run(ctx: &mut Ctx) {
         }
     }
     ctx.selftest("reference sm4 == OpenSSL on 400 ECB vectors", ref_ok);
+
+    // --- crafted: the input of the round function T is a boundary word (0, ff..ff, one byte lane set) in a chosen
+    // round, for encryption and for decryption; and keys whose key schedule contains a boundary round key. Random
+    // blocks/keys meet any one of these with probability 2^-32 per round.
+    {
+        let words: [u32; 8] = [0, 0xffff_ffff, 0x0000_00ff, 0xff00_0000, 0x0000_0001, 0x8000_0000, 0x0101_0101, 0x00ff_ff00];
+        let mut pc = ctx.prng("crafted_round");
+        let reps = ctx.n(1, 24);
+        let mut ci = 0u64;
+        for rep in 0..reps {
+            for round in 0..32usize {
+                for (wi, &w) in words.iter().enumerate() {
+                    ci += 1;
+                    let sub = pc.next();
+                    if !ctx.mine(ci) {
+                        continue;
+                    }
+                    let mut q = Prng::new(sub, "cr");
+                    let key: [u8; 16] = if (wi + round + rep as usize) % 3 == 0 { structured(q.below(NSTRUCT as u64) as usize) } else { q.arr() };
+                    let r = rsm4::Sm4::new(&key);
+                    let free = [q.next() as u32, q.next() as u32, q.next() as u32];
+                    let lib = new_cipher(ctx, &key);
+                    let Some(l) = lib.c.as_ref() else { continue };
+                    let pt = r.block_with_round_input(round, w, free);
+                    let ct = r.ct_block_with_round_input(round, w, free);
+                    if r.round_inputs(&pt, false)[round] != w || r.round_inputs(&ct, true)[round] != w {
+                        ctx.violation("harness:crafted-round-input-not-reproduced", json!({"round": round, "word": format!("{:08x}", w)}));
+                        continue;
+                    }
+                    ctx.class("crafted_round_input");
+                    ctx.class(&format!("crafted_round_input:{:08x}", w));
+                    ctx.distinct("blk", &[&key, &pt]);
+                    block_call(ctx, l, 0, &key, &pt, "crafted_round_input");
+                    block_call(ctx, l, 1, &key, &ct, "crafted_round_input");
+                    // key with rk[round] = w
+                    let key2 = rsm4::key_with_round_key(round, w, free);
+                    if rsm4::Sm4::new(&key2).round_keys()[round] != w {
+                        ctx.violation("harness:crafted-round-key-not-reproduced", json!({"round": round, "word": format!("{:08x}", w)}));
+                        continue;
+                    }
+                    let lib2 = new_cipher(ctx, &key2);
+                    let Some(l2) = lib2.c.as_ref() else { continue };
+                    ctx.class("crafted_round_key");
+                    let blk: [u8; 16] = q.arr();
+                    ctx.distinct("blk", &[&key2, &blk]);
+                    block_call(ctx, l2, 0, &key2, &blk, "crafted_round_key");
+                    block_call(ctx, l2, 1, &key2, &blk, "crafted_round_key");
+                }
+            }
+        }
+        ctx.exhaustive("T input in {0, ffffffff, 000000ff, ff000000, 1, 80000000, 01010101, 00ffff00} x 32 rounds x {encrypt, decrypt}; round key equal to each of these words x 32 rounds", true);
+    }
 
     // --- structured keys x structured blocks, both directions
     let mut idx = 0u64;
